@@ -198,7 +198,12 @@ func runCheck(repo, prop, tier string, rest []string) int {
 		return fail2("no obligations generated")
 	}
 
-	timeout := 10000
+	// sweeps have a few hundred obligations that are known not to discharge (frontier): keep their limit short; the other
+	// checks claim every obligation, so a generous limit protects them against a loaded machine
+	timeout := 25000
+	if c.useLedger {
+		timeout = 10000
+	}
 	if tier == "thorough" {
 		timeout = 30000
 	}
@@ -224,6 +229,9 @@ func runCheck(repo, prop, tier string, rest []string) int {
 	for _, j := range c.jobs {
 		o := j.o
 		solverTime += o.TimeS
+		if os.Getenv("VERIF_SLOW") != "" && o.TimeS > 1.0 {
+			fmt.Printf("SLOW %.2fs %s %s %s\n", o.TimeS, o.Result, o.Solver, o.Name)
+		}
 		if o.Cover {
 			covers++
 			if o.Result == "unsat" {
